@@ -39,6 +39,7 @@ type ev struct {
 	Cb    int     `json:"cb"` // pass NEED_RESULT_POINT_CALLBACK (no effect on the answer; the 1-D retry logic copies the hints when it is set)
 	Al    int     `json:"al"` // ITF: pass ALLOWED_LENGTHS = [length of the content] (a hint the row decoder itself consumes)
 	H     int     `json:"h"`  // requested height of a 1-D rendering
+	Mh    int     `json:"mh"` // qrmat: forced mask pattern + 1 (0: the encoder chooses)
 	Mg    int     `json:"mg"` // QR: MARGIN hint (quiet zone in modules), -1 = the writer's default
 	Pad   int     `json:"pad"`
 	Scale int     `json:"scale"`
@@ -308,7 +309,11 @@ func main() {
 				o := fromChunks(e.B, e.Bw, e.Bh).pose(e.Pad, e.Scale, e.Rot, e.Mir)
 				e.W, e.Hh, e.Out = o.w, o.h, o.chunks()
 			case "qrmat":
-				code, err := qrenc.Encoder_encode(string(hlib.IntsToBytes(e.C)), levels[e.Ec], nil)
+				var eh map[gozxing.EncodeHintType]interface{}
+				if e.Mh > 0 { // mh = forced mask pattern + 1 (0: the encoder chooses)
+					eh = map[gozxing.EncodeHintType]interface{}{gozxing.EncodeHintType_QR_MASK_PATTERN: e.Mh - 1}
+				}
+				code, err := qrenc.Encoder_encode(string(hlib.IntsToBytes(e.C)), levels[e.Ec], eh)
 				if err != nil {
 					e.Werr = 1
 					return
